@@ -38,6 +38,8 @@ type Prog struct {
 	lockMaps   map[string]bool
 	sentinelOK map[*ssa.Global]bool
 	sentinelText map[string]string
+	stall    map[*ssa.Function]*stallInfo
+	badLock  map[string]string
 	lockReqs   map[*ssa.Function][]lockReq
 	monotone   map[string]*GuardDecl // "typeName.field"
 	anchorErrs []anchorErr
@@ -209,6 +211,10 @@ func (p *Prog) loadLibSpecs(dir string) error {
 		for k, fc := range sf.Funcs {
 			fc.Trusted = true
 			p.libs[k] = fc
+			if fc.BlocksWhy != "" {
+				blockingIface[k] = fc.BlocksWhy
+				blockingLib[k] = fc.BlocksWhy
+			}
 		}
 		for _, g := range sf.Ghosts {
 			p.ghosts[strings.TrimPrefix(strings.Trim(g.Recv, "()"), "*")+"."+g.Name] = g
